@@ -896,10 +896,27 @@ def run(chk, replay=None):
     t2 = time.time()
 
     corr_bad, oracle_bad, sigs = [], [], set()
+    known = {k["key"]: k["text"] for k in vlib.known_findings() if k["property"] == "C18"}
+    F_HTTP = "http-bytes-after-rejected-request-line"
+    f_http_hits = 0
     for c in cases:
         chk.cov["evaluations"] += 1
         if c.cid in crashes:
             rc, se, partial = crashes[c.cid]
+            partial = [l for l in partial if l != ""]
+            lm = model_out.get(c.cid) or []
+            # finding http-bytes-after-rejected-request-line, matched by its signature: the assertion of
+            # HttpRequest::setMethod, in an hsrv case, at exactly the delivery where the faithful model predicts it,
+            # everything before it equal to the model's trace
+            if (c.header.startswith("hsrv") and "setMethod" in se and "method_ == kInvalid" in se
+                    and len(partial) < len(lm) and lm[len(partial)].startswith("D ASSERT") and partial == lm[:len(partial)]):
+                f_http_hits += 1
+                if F_HTTP in known:
+                    continue
+                oracle_bad.append((c, len(partial), "HttpServer keeps reading after a 400 without resetting the context: delivery %d "
+                                   "aborts in assert(method_ == kInvalid), HttpRequest::setMethod (finding %s, see findings/C18.md)"
+                                   % (len(partial), F_HTTP)))
+                continue
             key = [l.strip() for l in se.splitlines() if re.search(r"ERROR: AddressSanitizer|runtime error:|Assertion|SUMMARY:", l)]
             oracle_bad.append((c, len(partial), "implementation crashed (rc=%s) after %d output lines: %s"
                                % (rc, len(partial), " | ".join(key[:3]) or se[-600:])))
@@ -923,6 +940,8 @@ def run(chk, replay=None):
             sigs.add(s)
             if len(chk.cov["samples"]) < 6 and c.tag not in [x.get("label") for x in chk.cov["samples"]] and len(c.ops) <= 6:
                 chk.sample({"label": c.tag, "case": c.text().split("\n")[:-1], "impl": li[1:-1]})
+    if f_http_hits and F_HTTP in known:
+        chk.known(F_HTTP, "key=%s %s (%d cases this run)" % (F_HTTP, known[F_HTTP], f_http_hits))
     t3 = time.time()
     chk.cov["phase_s"] = {"generate": round(t1 - t0, 1), "run_both": round(t2 - t1, 1), "oracle": round(t3 - t2, 1)}
     chk.cov["distinct_nontrivial"] = len(sigs)
@@ -934,6 +953,10 @@ def run(chk, replay=None):
                        "provoking runs. Non-trivial = at least one message/request/error/encoding was produced; distinct by (instance+tag, "
                        "crc32 of the stream, chunk lengths, events)")
     chk.cov["traces_validated_against_impl"] = len(cases) - len(corr_bad)
+    if corr_bad:
+        chk.cov["correspondence_failures"] = [{"case": c.cid, "class": c.tag, "line": idx, "what": msg[:300]} for (c, idx, msg) in corr_bad[:8]]
+    if oracle_bad:
+        chk.cov["oracle_failures"] = [{"case": c.cid, "class": c.tag, "op": idx, "what": msg[:300]} for (c, idx, msg) in oracle_bad[:8]]
     chk.add_obligation("correspondence: extracted models (codec_feed with C19_Wire.wire_parse for RpcMessage payloads / http_feed / "
                        "fillEmptyBuffer over the C10 Buffer model / deliver = onMessage over the Buffer model + default error callback / "
                        "srv_deliver = HttpServer::onMessage / response_bytes / adler32) == real ProtobufCodecLite, RpcCodec, HttpContext, "
